@@ -180,6 +180,14 @@ func componentWith(scripts []string, snaps int, labels map[string]string, plain 
 	}}
 }
 
+func labelsN(n int) map[string]string {
+	m := map[string]string{}
+	for i := 0; i < n; i++ {
+		m[fmt.Sprintf("k%02d", i)] = fmt.Sprintf("v%02d", i)
+	}
+	return m
+}
+
 func diffKey(got, want counts) string {
 	var p []string
 	cmp := func(n string, g, w uint64) {
@@ -367,6 +375,11 @@ func scenariosFor(tier string) []vrt.Scenario {
 			sc := componentLabelled([]string{"sd", "f"}, 1, map[string]string{"env": "x", "zone": "y"})
 			sc.Bound = 1
 			return sc
+		}(), func() vrt.Scenario {
+			// five labels: a slice grown by append to five elements has room for three more
+			sc := componentLabelled([]string{"s", "f"}, 0, labelsN(5))
+			sc.Bound = 1
+			return sc
 		}())
 		for _, scr := range [][]string{{"d", "d"}, {"s", "f"}, {"sd", "fd"}} {
 			sc := componentPlain(scr, 1)
@@ -390,6 +403,11 @@ func scenariosFor(tier string) []vrt.Scenario {
 	add(3, 1, "s", "f", "d")
 	add(3, 2, "ss", "ff")
 	add(2, 2, "sf", "fd", "ds")
+	for _, n := range []int{1, 3, 4, 5, 8, 9, 13} {
+		sc := componentLabelled([]string{"sd", "f"}, 0, labelsN(n))
+		sc.Bound = 2
+		out = append(out, sc)
+	}
 	for _, scr := range [][]string{{"s", "f"}, {"sd", "f"}, {"sf", "fs"}, {"d", "s", "f"}} {
 		sc := componentLabelled(scr, 1, map[string]string{"env": "x", "zone": "y"})
 		sc.Bound = 3
